@@ -164,6 +164,10 @@ def configurations():
         "isimip_pr_months_short": ("pr@short", lambda: ISIMIP.from_variable("pr", running_window_mode=False), True),
         "isimip_hurs_months_short": ("hurs@short", lambda: ISIMIP.from_variable("hurs", running_window_mode=False), True),
         "isimip_prsnratio_months_short": ("prsnratio@short", lambda: ISIMIP.from_variable("prsnratio", running_window_mode=False), True),
+        # a dry / saturated season with 0, 1, 2 values between the thresholds per month or window (parametric step-6 fallbacks)
+        "isimip_pr_dryseason": ("pr@dry", lambda: ISIMIP.from_variable("pr", running_window_mode=True, running_window_length=31, running_window_step_length=31), True),
+        "isimip_pr_months_dryseason": ("pr@dry", lambda: ISIMIP.from_variable("pr", running_window_mode=False), True),
+        "isimip_hurs_months_param_saturated": ("hurs@dry", lambda: ISIMIP.from_variable("hurs", running_window_mode=False, nonparametric_qm=False), True),
         # a running window that covers the whole year: the window index set is every time step
         "ls_tas_fullwindow": ("tas", lambda: LinearScaling.from_variable("tas", running_window_mode=True, running_window_length=367, running_window_step_length=367), False),
         "sdm_pr_fullwindow": ("pr", lambda: ScaledDistributionMapping.from_variable("pr", running_window_mode=True, running_window_length=367, running_window_step_length=367), False),
@@ -318,7 +322,11 @@ def make_wrapper(func, pyname, params):
         return func(*a, **k)
 
     wrapper.__wrapped__ = func
+    # same module / qualified name as the original: the process pool pickles functions by name, and the name resolves to
+    # this wrapper while the probes are installed
     wrapper.__name__ = getattr(func, "__name__", "wrapped")
+    wrapper.__qualname__ = getattr(func, "__qualname__", wrapper.__name__)
+    wrapper.__module__ = getattr(func, "__module__", __name__)
     return wrapper
 
 
@@ -483,18 +491,18 @@ def rng_state_equal(a, b):
 RNG_ADVANCED = []  # set by call(): did the last call change numpy's global generator state?
 
 
-def call(deb, inp, entry, seed):
+def call(deb, inp, entry, seed, parallel=False):
     """seed=None: do not re-seed (deterministic configurations are repeated on whatever state the generator is in)"""
     if seed is not None:
         np.random.seed(seed)
     st0 = np.random.get_state()
     try:
-        return _call(deb, inp, entry)
+        return _call(deb, inp, entry, parallel=parallel)
     finally:
         RNG_ADVANCED.append(not rng_state_equal(st0, np.random.get_state()))
 
 
-def _call(deb, inp, entry):
+def _call(deb, inp, entry, parallel=False):
     o, h, f = inp.views
     to, th, tf = inp.tviews
     kw = {}
@@ -503,6 +511,8 @@ def _call(deb, inp, entry):
     with warnings.catch_warnings():
         warnings.simplefilter("ignore")
         if entry == "apply":
+            if parallel:
+                return deb.apply(o, h, f, progressbar=False, parallel=True, nr_processes=1, **kw)
             return deb.apply(o, h, f, progressbar=False, **kw)
         return deb.apply_location(o, h, f, **kw)
 
@@ -510,6 +520,9 @@ def _call(deb, inp, entry):
 def make_series(var, nprs, tier, entry, dtype, times_kind, conv=False, ties=False):
     n_o = 730 if tier == "quick" else 1095
     extra = 1
+    dry = var.endswith("@dry")
+    if dry:
+        var = var[:-4]
     if var.endswith("@short"):
         var, n_o, extra = var[:-6], 365, 0  # exactly one (non-leap) calendar year: every month is one contiguous block
     y0 = 1990
@@ -525,6 +538,19 @@ def make_series(var, nprs, tier, entry, dtype, times_kind, conv=False, ties=Fals
             a = np.stack(cols, axis=1).reshape(len(dates), *shape)
         else:
             a = gen_data(base, nprs, dates, sh)
+        if dry and sh == 3.0:  # the series to be corrected only
+            # a season in which the variable sits at its bound (no rain / saturated air) apart from 0, 1 or 2 days:
+            # windows / months with exactly 0, 1, 2 values between the thresholds (data-dependent fallbacks of ISIMIP step 6)
+            dd = doy(dates)
+            yrs = np.array([getattr(t, "year", None) or int(str(t)[:4]) for t in dates])
+            bound = 0.0 if base == "pr" else 100.0
+            inside = 3e-5 if base == "pr" else 55.0
+            a = np.array(a, dtype=float)
+            block = (dd >= 121) & (dd <= 273)  # May .. September
+            a[block] = bound
+            y0_ = int(yrs.min())
+            for (dsel, ysel, val) in ((196, y0_, inside), (232, y0_, inside), (236, y0_ + (1 if (yrs > y0_).any() else 0), 1.7 * inside)):
+                a[(dd == dsel) & (yrs == ysel)] = val  # one value in July, two in August (of which one possibly in another year), none in June
         if ties:  # repeated values inside every window (measurements rounded to one decimal / two significant digits)
             a = np.round(a, 1) if base in ("tas", "hurs", "rsds") else np.where(a > 0, np.float64(1e-5) * np.round(a / 1e-5), a)
         if var.endswith("_nan"):
@@ -666,6 +692,29 @@ def protocol(name, var, factory, randomised, entry, layout, dtype, times, tier, 
             res.notes.append(f"{name}: settings excursion raised {type(ex).__name__}")
     # ---- a fresh instance
     out4 = call(factory(), Inputs(arrs, tarr, "C", entry, masks=masks), entry, seed if not deterministic else seed + 11)
+    # ---- the same through the process pool with one worker (the seed-determinism clause does not exclude parallel=True;
+    #      what the pool does to grids is C05): seed, call, re-seed, call again
+    if entry == "apply" and (not deterministic or rng.random() < 0.25):
+        inp_p = [Inputs(arrs, tarr, "C", entry, masks=masks) for _ in range(2)]
+        try:
+            outp = [call(deb, ip, entry, seed, parallel=True) for ip in inp_p]
+        except Exception as ex:  # noqa: BLE001
+            outp = None
+            res.extra["parallel_one_worker_failed"] = res.extra.get("parallel_one_worker_failed", 0) + 1
+            res.notes.append(f"{name}: apply(parallel=True, nr_processes=1) raised {type(ex).__name__}: {str(ex)[:60]}")
+        if outp is not None:
+            res.extra["parallel_one_worker_cases"] = res.extra.get("parallel_one_worker_cases", 0) + 1
+            if outp[0].tobytes() != outp[1].tobytes():
+                nd = int((~((outp[0] == outp[1]) | (np.isnan(outp[0]) & np.isnan(outp[1])))).sum())
+                problems.append((f"{name}: apply(parallel=True, nr_processes=1) repeated under the same np.random.seed differs ({nd} values)",
+                                 {**case, "what": "not repeatable", "which": "parallel one worker, re-seeded"}))
+            elif outp[0].shape != out1.shape or outp[0].tobytes() != out1.tobytes():
+                mismatches.append({"op": "parallel-one-worker", "case": case, "impl": "apply(parallel=True, nr_processes=1) differs from the serial call under the same seed",
+                                   "model": "Model.Instance.apply: output = run(view, args, draws); a forked worker inherits the generator state"})
+            for ip in inp_p:
+                ch = ip.changed()
+                if ch:
+                    problems.append((f"{name}: caller arrays modified by apply(parallel=True): {ch}", {**case, "what": "input modified", "changed": ch}))
     s2, d2 = vars_snapshot(deb)
     if deterministic and any(RNG_ADVANCED):
         problems.append((f"{name}: a configuration without any random step (no guard of Model.Purity.rngSitesJ is on) advanced numpy's global generator "
@@ -904,7 +953,7 @@ def run(tier, res, force_search=False):
     ]
     res.assumptions = [
         "PARTIAL: proof over an alias model; numpy's actual view/copy behaviour and the absence of hidden writes inside numpy/scipy routines are assumptions validated by probes, not proved",
-        "serial execution only (parallel=True is C05); metrics/evaluate are out of scope",
+        "the alias model covers the serial path; parallel=True is exercised only for seed-determinism (one worker, re-seeded repeat) — grids through the pool are C05; metrics/evaluate are out of scope",
         "the randomised configurations are compared after re-seeding numpy's global generator (np.random.seed)",
         "hook IBICUS_VERIF=1: _verif_mark_unassigned fills freshly allocated result buffers (whitelisted write site, modelled as a store into an own buffer)",
     ]
@@ -929,6 +978,16 @@ def run(tier, res, force_search=False):
                                      {"config": name, "entry": entry, "layout": layout, "what": "read-only input written"}))
                 else:
                     res.notes.append(f"{name}/{entry}/{layout}: protocol raised {type(ex).__name__}: {str(ex)[:100]}")
+
+    # ---- a run in which (nearly) nothing was exercised must not pass
+    skipped = sum(1 for n_ in res.notes if "configuration skipped" in n_)
+    res.extra["protocols_planned"], res.extra["protocols_skipped"] = len(jobs), skipped
+    if res.extra.get("parallel_one_worker_failed", 0) > res.extra.get("parallel_one_worker_cases", 0):
+        mismatches.append({"op": "coverage", "case": {}, "impl": f"apply(parallel=True, nr_processes=1) raised in {res.extra['parallel_one_worker_failed']} cases",
+                           "model": "the one-worker pool runs every configuration"})
+    if skipped > max(3, len(jobs) // 10):
+        mismatches.append({"op": "coverage", "case": {}, "impl": f"{skipped} of {len(jobs)} protocol runs raised and were skipped: {res.notes[0][:160]}",
+                           "model": "every configuration of the table runs on its generated data"})
 
     # ---- provenance table: model vs np.shares_memory
     try:
